@@ -50,7 +50,7 @@ HeightsAfter(e, n) ==
       [] e.op \in Minus1 -> {e.sh - 1}
       [] e.op \in Minus2 -> {e.sh - 2}
       [] e.op = "Call_Val" -> {e.sh - 2 - n, e.sh - 2 - n + 1, e.sh - 2}      \* builtin (with / without result), or a VM function
-      [] e.op = "HostCall" -> {e.sh - 1 - n + 1}
+      [] e.op = "HostCall" -> {e.sh - 1 - n + 1, e.sh - 1 - n}      \* with or without a result
       [] e.op = "Spawn" -> {e.sh - 1 - n + 1}
       [] e.op = "Throw" -> {e.sh - 1}
       [] OTHER -> {e.sh}
